@@ -11,8 +11,11 @@ Record ghost := mkG {
   g_run : list (Z * Z);      (* consecutive missed blocks while active and in the commit *)
   g_jailt : list (Z * Z);    (* time of the last transition into jail *)
   g_until : list (Z * Z);    (* end of the inactivity period *)
-  g_held : list Z            (* jailed and not yet released by an unjail proposal or a rank reset *)
+  g_held : list Z;           (* jailed and not yet released by an unjail proposal or a rank reset *)
+  g_mc0 : list (Z * Z);      (* largest MischanceConfidence in force during the current run of misses *)
+  g_maxm0 : list (Z * Z)     (* largest MaxMischance in force during the current run of misses *)
 }.
+Definition mkG4 (g : ghost) (a b c : list (Z * Z)) (d : list Z) : ghost := mkG a b c d (g_mc0 g) (g_maxm0 g).
 Definition zget (v : Z) (l : list (Z * Z)) : Z := match lookup v l with Some x => x | None => 0 end.
 
 Definition status_of (vals : list (Z * vrec)) (v : Z) : option status := option_map v_status (lookup v vals).
@@ -78,10 +81,19 @@ Definition step_clauses (cfg : config) (g : ghost) (s s' : state) (o : op) (r : 
               if snd x then
                 (if is_active (v_status b) && (v_rank a <=? v_rank b)%Z && (v_streak b =? v_streak a + 1)%Z then [] else ["signer-punished"])
               else
+                (* consecutive misses, this one included, against the allowance IN FORCE at this block;
+                   a settings change in the middle of the run is named in the clause *)
                 let run := (zget v (g_run g) + 1)%Z in
+                let fresh := (zget v (g_run g) =? 0)%Z in
+                let mc0 := if fresh then c_mc cfg else zget v (g_mc0 g) in
+                let maxm0 := if fresh then c_maxm cfg else zget v (g_maxm0 g) in
                 if (c_mc cfg + c_maxm cfg <? run)%Z
-                then (if status_eqb (v_status b) SInactive then [] else ["downtime-missed"])
-                else (if is_active (v_status b) then [] else ["downtime-early"])
+                then (if status_eqb (v_status b) SInactive then [] else
+                      ["downtime-missed" ++ (if (c_mc cfg <? mc0)%Z then ":confidence-lowered-mid-run"
+                                             else if (c_maxm cfg <? maxm0)%Z then ":max-mischance-lowered-mid-run" else "")])
+                else (if is_active (v_status b) then [] else
+                      ["downtime-early" ++ (if (mc0 <? c_mc cfg)%Z then ":confidence-raised-mid-run"
+                                            else if (maxm0 <? c_maxm cfg)%Z then ":max-mischance-raised-mid-run" else "")])
             | _, _ => []
             end
           | _ => []
@@ -117,27 +129,44 @@ Definition ghost_next (cfg : config) (g : ghost) (s s' : state) (o : op) (r : re
   | ORotate t t' => (* the checker's counters follow the record to its new address *)
       mkG (zmove t t' (g_run g)) (zmove t t' (g_jailt g)) (zmove t t' (g_until g))
           (if smem t (g_held g) then sadd t' (sdel t (g_held g)) else sdel t' (g_held g))
+          (zmove t t' (g_mc0 g)) (zmove t t' (g_maxm0 g))
   | _ =>
   (* operation-specific counters *)
   let g1 :=
     match o, r with
     | OVotes vs, ROk =>
+        (* validators with a missed vote: the largest settings in force over their run of misses *)
+        let missers := flat_map (fun x : Z * bool =>
+                        match vals_with_key vals (fst x) with
+                        | [v] => if ostatus_eqb (status_of vals v) SActive && negb (snd x) then [v] else []
+                        | _ => [] end) vs in
+        let bump (now : Z) (l : list (Z * Z)) :=
+          fold_left (fun a v => if (zget v (g_run g) =? 0)%Z then zset v now a else zset v (Z.max now (zget v a)) a) missers l in
         mkG (fold_left (fun a (x : Z * bool) =>
                match vals_with_key vals (fst x) with
                | [v] => if ostatus_eqb (status_of vals v) SActive
                         then (if snd x then zset v 0 a else zset v (zget v a + 1) a) else a
                | _ => a end) vs (g_run g))
             (g_jailt g) (g_until g) (g_held g)
+            (bump (c_mc cfg) (g_mc0 g)) (bump (c_maxm cfg) (g_maxm0 g))
+    | OGenesis over, ROk =>
+        (* signing infos edited in the genesis file are inputs of the new chain: the run of misses of
+           their validators starts from the imported counters, under the settings in force *)
+        let tg := flat_map (fun e : Z * sinfo => match vals_with_key vals (fst e) with
+                                                 | [v] => [(v, (si_conf (snd e) + si_misch (snd e))%Z)] | _ => [] end) over in
+        mkG (fold_left (fun a (e : Z * Z) => zset (fst e) (snd e) a) tg (g_run g)) (g_jailt g) (g_until g) (g_held g)
+            (fold_left (fun a (e : Z * Z) => zset (fst e) (c_mc cfg) a) tg (g_mc0 g))
+            (fold_left (fun a (e : Z * Z) => zset (fst e) (c_maxm cfg) a) tg (g_maxm0 g))
     | OEvidence es, ROk =>
-        mkG (g_run g) (g_jailt g)
+        mkG4 g (g_run g) (g_jailt g)
             (fold_left (fun a (e : Z * Z * Z) =>
                let '(k, ih, it) := e in
                if too_old cfg s ih it then a else
                match vals_with_key vals k with [v] => zset v (st_time s) a | _ => a end) es (g_until g))
             (g_held g)
-    | OActivate t, ROk => mkG (zset t 0 (g_run g)) (g_jailt g) (g_until g) (g_held g)
-    | OUnjail t, ROk => mkG (g_run g) (g_jailt g) (g_until g) (sdel t (g_held g))
-    | OReset, ROk => mkG [] (g_jailt g) [] []
+    | OActivate t, ROk => mkG4 g (zset t 0 (g_run g)) (g_jailt g) (g_until g) (g_held g)
+    | OUnjail t, ROk => mkG4 g (g_run g) (g_jailt g) (g_until g) (sdel t (g_held g))
+    | OReset, ROk => mkG [] (g_jailt g) [] [] [] []
     | _, _ => g
     end in
   (* transitions observed in this step *)
@@ -145,11 +174,11 @@ Definition ghost_next (cfg : config) (g : ghost) (s s' : state) (o : op) (r : re
     let v := fst e in let b := v_status (snd e) in
     if ostatus_eqb (status_of vals v) b then a else
     match b with
-    | SJailed => mkG (g_run a) (zset v (st_time s) (g_jailt a)) (g_until a) (sadd v (g_held a))
+    | SJailed => mkG4 a (g_run a) (zset v (st_time s) (g_jailt a)) (g_until a) (sadd v (g_held a))
     | SInactive => match o with
-                   | OVotes _ => mkG (g_run a) (g_jailt a) (zset v (st_time s + c_downtime cfg)%Z (g_until a)) (g_held a)
+                   | OVotes _ => mkG4 a (g_run a) (g_jailt a) (zset v (st_time s + c_downtime cfg)%Z (g_until a)) (g_held a)
                    | _ => a end
-    | SActive => mkG (g_run a) (g_jailt a) (g_until a) (sdel v (g_held a))   (* an escape is reported once *)
+    | SActive => mkG4 a (g_run a) (g_jailt a) (g_until a) (sdel v (g_held a))   (* an escape is reported once *)
     | _ => a
     end) vals' g1
   end.
@@ -159,7 +188,7 @@ Fixpoint c15_clauses (cfg : config) (g : ghost) (s : state) (l : list (op * obs)
   | [] => []
   | (o, b) :: r =>
     let s' := observe s o b in
-    (step_clauses cfg g s s' o (o_res b) ++ c15_clauses cfg (ghost_next cfg g s s' o (o_res b)) s' r)%list
+    (step_clauses cfg g s s' o (o_res b) ++ c15_clauses (next_cfg cfg o) (ghost_next cfg g s s' o (o_res b)) s' r)%list
   end.
 
 Section Run.
@@ -168,7 +197,7 @@ Variable init : state.
 Definition c15_mismatches (cs : list c15_case) : list nat := c05_mismatches cfgs init cs.
 Definition c15_case_clauses (c : c15_case) : list string :=
   match c with Case ci steps =>
-    match nth_error cfgs ci with None => ["cfg"] | Some cfg => c15_clauses cfg (mkG [] [] [] []) init steps end end.
+    match nth_error cfgs ci with None => ["cfg"] | Some cfg => c15_clauses cfg (mkG [] [] [] [] [] []) init steps end end.
 Fixpoint c15_violations_from (n : nat) (cs : list c15_case) : list (nat * list string) :=
   match cs with [] => [] | c :: r =>
     match c15_case_clauses c with [] => c15_violations_from (S n) r | cl => (n, cl) :: c15_violations_from (S n) r end end.
